@@ -33,26 +33,31 @@ const (
 
 // ---- Gallina printing of trees.
 
+// c13Str prints a string packed seven bytes to a primitive integer (see
+// Run/C13.v: s1, sn).
 func c13Str(s string) string {
-	plain := true
-	for i := 0; i < len(s); i++ {
-		if s[i] < 0x20 || s[i] > 0x7e {
-			plain = false
-			break
+	chunk := func(c string) string {
+		var v uint64
+		for i := len(c) - 1; i >= 0; i-- {
+			v = v<<8 | uint64(c[i])
 		}
+		return strconv.FormatUint(v<<3|uint64(len(c)), 10)
 	}
-	if plain {
-		return `"` + strings.ReplaceAll(s, `"`, `""`) + `"`
+	if len(s) <= 7 {
+		return "(s1 " + chunk(s) + ")"
 	}
 	var b strings.Builder
-	b.WriteString("(bs [")
-	for i := 0; i < len(s); i++ {
-		if i > 0 {
-			b.WriteString(";")
+	b.WriteString("(sn ")
+	n := 0
+	for i := 0; i < len(s); i += 7 {
+		e := i + 7
+		if e > len(s) {
+			e = len(s)
 		}
-		b.WriteString(strconv.Itoa(int(s[i])))
+		b.WriteString("(IC " + chunk(s[i:e]) + " ")
+		n++
 	}
-	b.WriteString("]%N)")
+	b.WriteString("I0" + strings.Repeat(")", n+1))
 	return b.String()
 }
 
